@@ -976,6 +976,11 @@ def emit_programs(progs: list) -> str:
         ent = ", ".join(f'("{m}", .{ {"GUARD": "guard", "NOIO": "noio", "UNGUARDED": "bare"}[v] })' for m, v in sorted(tab.items()))
         out.append(f"/-- static guard analysis of the RPC methods of {p.cls.__name__} -/\n"
                    f"def rpcGuards_{p.cls.__name__} : List (String × Guard) := [{ent}]\n")
+    tg = transport_guard_table()
+    ent = ", ".join(f'("{m}", .{ {"GUARD": "guard", "NOIO": "noio", "UNGUARDED": "bare"}[v] })' for m, v in sorted(tg.items()))
+    out.append("/-- static guard analysis of the I/O methods of every QMI_Transport (sub)class: does `_check_is_open()` (or a\n"
+               "    delegation to a guarded I/O method) precede any access to the OS / library endpoint? -/\n"
+               f"def transportGuards : List (String × Guard) := [{ent}]\n")
     out.append("def allDrivers : List Driver := [" + ", ".join(["gen_QMI_Instrument"] + [f"gen_{p.name}" for p in progs]) + "]\n")
     out.append("end QmiModel.Gen.OpenProgs\n")
     return "\n".join(out)
@@ -1069,6 +1074,17 @@ def emit_obligations(progs: list, untranslatable: list) -> tuple[str, dict]:
             out.append(f"/-- the RPC methods of {c} that reach a link object without an instrument-level check first: on a closed\n"
                        f"    instrument they are stopped by the transport's own state check only (still no device I/O: method_closed_no_io) -/\n"
                        f"theorem rpcbare_{c} : bareMethods rpcGuards_{c} = {lst} := by rfl")
+    tbare = sorted(m for m, v in transport_guard_table().items() if v == "UNGUARDED")
+    verdicts["__transports__"] = {"bare_io_methods": tbare}
+    if not tbare:
+        out.append("/-- every I/O method of every shipped transport checks the transport's open flag before it can touch the OS /\n"
+                   "    library endpoint — the second line of defence behind `rpcbare_*` (drivers reach the device only through these) -/\n"
+                   "theorem transport_io_guarded : bareMethods transportGuards = [] := by rfl")
+    else:
+        lst = "[" + ", ".join(f'"{m}"' for m in tbare) + "]"
+        out.append("/-- transport I/O methods that can touch the endpoint WITHOUT checking the open flag first (each must be reproduced\n"
+                   "    dynamically on the real transport class; it is a defect: a closed instrument can then reach the device) -/\n"
+                   f"theorem transport_io_bare : bareMethods transportGuards = {lst} := by rfl")
     out.append("")
     if untranslatable:
         out.append("-- classes the translator refused (no obligation stated; the check reports them as a broken link):")
@@ -1315,3 +1331,102 @@ class GuardAnalysis:
 
     def table(self) -> dict:
         return {m: self.summary(m) for m in D.rpc_methods(self.cls)}
+
+
+# ---------------------------------------------------------------------------
+# static guard analysis of the transports' own I/O methods (the second line of defence the drivers rely on)
+# ---------------------------------------------------------------------------
+
+TRANSPORT_IO_METHODS = ("write", "read", "read_until", "read_until_timeout", "discard_read")
+
+
+def transport_classes() -> list:
+    import qmi.core.transport as T0
+    for m in ("qmi.core.transport_usbtmc_pyusb", "qmi.core.transport_usbtmc_visa", "qmi.core.transport_gpib_visa"):
+        try:
+            __import__(m)
+        except Exception:
+            pass
+    seen = []
+
+    def walk(c):
+        for k in c.__subclasses__():
+            if k not in seen:
+                seen.append(k)
+                walk(k)
+    walk(T0.QMI_Transport)
+    return [T0.QMI_Transport] + sorted((k for k in seen if k.__module__.startswith("qmi.")), key=lambda k: k.__name__)
+
+
+def transport_guard_table() -> dict:
+    """{"<Class>.<method>": GUARD | NOIO | UNGUARDED} for every I/O method a QMI_Transport (sub)class defines itself.
+
+    GUARD: the first statement that is not pure is `self._check_is_open()`, or the method only delegates to I/O methods
+    of self / super() (which are in this table themselves) before touching anything else.
+    NOIO: the body only raises (abstract method).  UNGUARDED: anything else."""
+    import textwrap
+    out = {}
+    for k in transport_classes():
+        for m in TRANSPORT_IO_METHODS:
+            if m not in k.__dict__ or not inspect.isfunction(k.__dict__[m]):
+                continue
+            try:
+                fdef = ast.parse(textwrap.dedent(inspect.getsource(k.__dict__[m]))).body[0]
+            except (OSError, TypeError, SyntaxError):
+                out[f"{k.__name__}.{m}"] = "UNGUARDED"
+                continue
+            out[f"{k.__name__}.{m}"] = _first_effect(D.body_without_docstring(fdef))
+    return out
+
+
+def _delegates_only(st) -> bool:
+    calls = [n for n in ast.walk(st) if isinstance(n, ast.Call)]
+    deleg = False
+    for c in calls:
+        f = c.func
+        if pure_call(c):
+            continue
+        if isinstance(f, ast.Attribute) and f.attr in TRANSPORT_IO_METHODS and (
+                _is_self_attr(f) or (isinstance(f.value, ast.Call) and isinstance(f.value.func, ast.Name)
+                                     and f.value.func.id == "super")):
+            deleg = True
+            continue
+        return False
+    if not deleg:
+        return False
+    # apart from the delegation nothing of `self` may be touched
+    for n in ast.walk(st):
+        if _is_self_attr(n) and n.attr not in TRANSPORT_IO_METHODS:
+            return False
+    return True
+
+
+def _buffer_only(st) -> bool:
+    """touches nothing of `self` but the software read buffer and class constants: no device access possible"""
+    for n in ast.walk(st):
+        if _is_self_attr(n) and not (n.attr == "_read_buffer" or n.attr.isupper()):
+            return False
+        if isinstance(n, ast.Name) and n.id == "self" and False:
+            return False
+    return not any(isinstance(n, (ast.Raise,)) for n in ast.walk(st)) or True
+
+
+def _first_effect(stmts) -> str:
+    for st in stmts:
+        if isinstance(st, ast.Expr) and isinstance(st.value, ast.Constant):
+            continue
+        if not isinstance(st, (ast.Raise, ast.Try)) and _buffer_only(st):
+            continue
+        if isinstance(st, ast.Expr) and isinstance(st.value, ast.Call) and pure_call(st.value):
+            continue
+        if isinstance(st, ast.Raise):
+            return "NOIO"
+        if isinstance(st, ast.Expr) and isinstance(st.value, ast.Call) and _is_self_attr(st.value.func, "_check_is_open") \
+                and not st.value.args:
+            return "GUARD"
+        if isinstance(st, ast.Try):
+            return _first_effect(st.body)
+        if _delegates_only(st):
+            return "GUARD"
+        return "UNGUARDED"
+    return "NOIO"
